@@ -25,7 +25,8 @@ func init() {
 			"(W) the agent-facing endpoints look the waiter up by the request ID header of their own call and hand it the response parsed from their own body; " +
 			"(R) the rendezvous channel is unbuffered, created once per client activation, received from at one site outside any loop; " +
 			"(A) the request/backend IDs travel unchanged, in the right parameter roles, from the pending list to the upload headers. " +
-			"Not decided: interleavings inside net/http, collision probability of the 256-bit IDs, byte identity of the relayed payloads.",
+			"Not decided: interleavings inside net/http, collision probability of the 256-bit IDs, byte identity of the relayed payloads. " +
+			"(M) no long-lived closure (handler, ModifyResponse hook) writes into byte storage captured from its creator, no package-level byte buffer is written, no sync.Pool traffic, and goroutines started in loops capture only per-iteration variables — a shared scratch buffer or loop variable hands one client another client's bytes; (C) the App Engine proxy's GET response cache is looked up and stored under one key that is fmt.Sprintf with both components (user e-mail, full URL) rendered by %q and never shortened, only for GET.",
 		Assumptions: []string{
 			"net/http server/transport do not mix bodies of different connections",
 			"sha256 of a 63-bit draw is collision-free for distinct draws (IDs are distinct iff draws are distinct)",
